@@ -202,8 +202,38 @@ def tokenizer_termination(ctx):
              "the tokenize loop does not end every iteration with pos = mo.end(); mo = get_token(s, pos)", confirm=confirm, shape=True)
 
 
+def variant_validation(ctx):
+    """C17/S3: VerifyAttrs.check_fcn_attrs validates EVERY argument list the function is wrapped with: the arguments
+    re-declared by each fortran_generic entry go through check_arg_attrs and check_implied_attrs like the function's own
+    (an invalid +implied on a variant is otherwise met unvalidated by the Fortran wrapper)."""
+    import ast, os
+    from checklib import REPO
+    tree = ast.parse(open(os.path.join(REPO, "shroud", "generate.py")).read())
+    fn = None
+    for c in ast.walk(tree):
+        if isinstance(c, ast.ClassDef) and c.name == "VerifyAttrs":
+            for f in c.body:
+                if isinstance(f, ast.FunctionDef) and f.name == "check_fcn_attrs":
+                    fn = f
+    ctx.item("C17/S3/reached", fn is not None, "VerifyAttrs.check_fcn_attrs not found")
+    if fn is None:
+        return
+    loops = [n for n in ast.walk(fn) if isinstance(n, ast.For) and ast.unparse(n.iter).endswith(".fortran_generic")]
+    conf = lambda: ctx.monitor("m_yaml", "search", 1500, ctx.seed)
+    ctx.item("C17/S3/check_fcn_attrs:loop-over-variants", len(loops) >= 1, "no loop over node.fortran_generic", confirm=conf, shape=True)
+    for lp in loops[:1]:
+        var = ast.unparse(lp.target)
+        calls = [ast.unparse(c) for c in ast.walk(lp) if isinstance(c, ast.Call)]
+        for callee in ("check_arg_attrs", "check_implied_attrs"):
+            ok = any(callee + "(" in c and var + "." in c or (callee + "(" in c and callee == "check_arg_attrs") for c in calls)
+            ctx.item("C17/S3/check_fcn_attrs:variant-arguments-through-" + callee, ok,
+                     "the arguments of a fortran_generic entry are not passed through %s inside the loop over the entries "
+                     "(calls in the loop: %s)" % (callee, calls[:6]), sample={"loop_line": lp.lineno}, confirm=conf, shape=True)
+
+
 def run(ctx):
     ctx.pyvc(G.UNITS + P.UNITS, MONITORS)
+    variant_validation(ctx)
     tokenizer_termination(ctx)
     literal_error_msg_sites(ctx)
     node_wiring(ctx)
